@@ -16,7 +16,7 @@ class CHECK(Check):
     entry = "LINE"
     theorems = ["C01_roundtrip_line", "C01_field_int", "C01_field_lit", "C01_field_missing", "C01_field_date", "C01_float_decimal", "C01_float_half_unit", "C01_float_sci_shape", "C01_float_sci", "C01_float_zero", "C01_float_dialect", "C01_stable_line", "C01_stable_fields", "C01_setters", "C01_rn64_is_round_nearest_even", "C01_rn64_nearest", "C01_round_idempotent", "C01_stable_float", "C01_stable_float_zero",
                 "C01_float_sci_fits_not_raises", "C01_float_sci_raises", "C01_round_absorbed_fixed", "C01_round_fixed_never_raises",
-                "C01_round_absorbed_sci", "C01_float_sci_half_unit", "C01_float_sci_writes", "C01_stable_float_sci",
+                "C01_round_absorbed_sci", "C01_float_sci_half_unit", "C01_float_sci_writes", "C01_stable_float_sci", "C01_stable_float_all",
                 "C01_refuted_sci_half_unit_subnormal", "C01_refuted_sci_half_unit_16_digits", "C01_refuted_sci_write_raises"]
     property_files = ["C01", "C01real"]
     rule = ("positional text layouts of 1-6 non-overlapping fields (literal, integer, float with 0-8 decimals in F/f/E/e "
